@@ -67,7 +67,8 @@ TracePoll ==
                                   [] want = "stop" -> "NotStopped"
                                   [] OTHER -> "UnderrunNotReported")
                 \* named deviation F7: closed inside an item, yet underrun is reported
-                /\ (IF want = "eos" /\ o = "underrun" THEN Dev(t, j, "F7") ELSE TRUE)
+                \* (only when unread octets remain at the logged position, i.e. the pending read was short)
+                /\ (IF want = "eos" /\ o = "underrun" /\ (ArgB(t, j) = -1 \/ ArgB(t, j) < avail) THEN Dev(t, j, "F7") ELSE TRUE)
         /\ item' = IF o = "obj" THEN item + 1 ELSE item
         /\ done' = (o \in {"stop", "eos", "err", "crash"})
   /\ l' = l + 1 /\ UNCHANGED <<tid, avail, closed>>
